@@ -22,18 +22,31 @@ def _load():
 
 # ---------------------------------------------------------------------------------------------------------
 NOT_APPLICABLE = {}
+# checks whose files exist but which are not claimed yet (listed under not_applicable with the reason given)
+PENDING = {
+    'C03': 'check built (harness/c03_total.cpp); the repairs it led to are being integrated, the check is not yet run to completion on the repaired tree',
+    'C04': 'check built (harness/c04_strict.cpp); the repairs it led to are being integrated, the check is not yet run to completion on the repaired tree',
+    'C05': 'check built (harness/c05_permissive.cpp); the repairs it led to are being integrated, the check is not yet run to completion on the repaired tree',
+    'C06': 'check being built (harness/c06_data.cpp)',
+}
 HOOK_COMMITS = []
 ENGINES = [
-    dict(name='enum', path='engines/vh.hpp + harness/c07_chksum.cpp, c08_numeric.cpp, c09_datetime.cpp, c24_schedule.cpp, c29_rotation.cpp, c32_xml.cpp', serves_properties=['C07', 'C08', 'C09', 'C24', 'C29', 'C32'],
+    dict(name='enum', path='engines/vh.hpp + harness/c07_chksum.cpp, c08_numeric.cpp, c09_datetime.cpp, c10_realm.cpp, c12_lookup.cpp, c24_schedule.cpp, c29_rotation.cpp, c32_xml.cpp', serves_properties=['C07', 'C08', 'C09', 'C10', 'C12', 'C24', 'C29', 'C32'],
          kind_free_text='exhaustive enumeration of a stated finite input lattice over the real code, sharded over 16 processes; sanitizers and guard pages as oracles'),
-    dict(name='msggen+refcodec', path='engines/explore/msggen.hpp, engines/explore/schema.hpp, vp/schema_model.py + harness/codec_lattice.cpp', serves_properties=['C01', 'C02', 'C11'],
-         kind_free_text='message lattice built from an independent model of the schema XML, real encoder/decoder/clone, independent tokenizer as oracle'),
-    dict(name='sim', path='engines/sim/sim.cpp, sim.hpp, world.hpp', serves_properties=['C15', 'C16', 'C17', 'C18', 'C19', 'C20', 'C22', 'C23', 'C26', 'C27'],
+    dict(name='msggen+refcodec', path='engines/explore/msggen.hpp, engines/explore/schema.hpp, engines/explore/fixedit.hpp, vp/schema_model.py + harness/codec_lattice.cpp, c03_total.cpp, c04_strict.cpp, c05_permissive.cpp, c06_data.cpp', serves_properties=['C01', 'C02', 'C03', 'C04', 'C05', 'C06', 'C11'],
+         kind_free_text='message lattice built from an independent model of the schema XML, real encoder/decoder/clone, independent tokenizer, serializer and reference acceptor as oracles; token-level edits of serialized messages'),
+    dict(name='schemagen', path='vp/schemagen.py, vp/sgrun.py, harness/schemagen_harness.cpp, harness/c14_hashtool.cpp', serves_properties=['C13', 'C14'],
+         kind_free_text='complete enumeration of a bounded grammar of schemas (programs); each is compiled by the freshly built f8c, its output compiled and judged against the independent schema model (metadata read-back and the codec oracles on the message lattice of that schema)'),
+    dict(name='sim', path='engines/sim/sim.cpp, sim.hpp, world.hpp', serves_properties=['C15', 'C16', 'C17', 'C18', 'C19', 'C20', 'C21', 'C22', 'C23', 'C26', 'C27'],
          kind_free_text='deterministic single-threaded runtime: virtual clock, threads registered but never run, scripted Poco socket handed to the real Connection/Session, interposed file system calls'),
-    dict(name='bfs', path='engines/explore/bfs.hpp + harness/session_*.cpp, persist_check.cpp', serves_properties=['C16', 'C17', 'C19', 'C20', 'C22', 'C26'],
+    dict(name='bfs', path='engines/explore/bfs.hpp + harness/session_*.cpp, persist_check.cpp, c12_pset.cpp', serves_properties=['C12', 'C16', 'C17', 'C19', 'C20', 'C21', 'C22', 'C26'],
          kind_free_text='explicit-state breadth-first search: state = event history replayed on a fresh real object, deduplicated by a canonical key, reference model compared at every step'),
-    dict(name='sched', path='engines/sched/sched.cpp, sched.h, explore.hpp, ff_shim.hpp + harness/c28_logger.cpp, c30_mpmc.cpp', serves_properties=['C28', 'C30'],
-         kind_free_text='cooperative scheduler (one futex baton, points at pthread create/join, locks, yields, sleeps and every FastFlow atomic) and iterative preemption-bounded depth-first explorer; executions run in process while none fails, in forked children from the first failing one on'),
+    dict(name='sched', path='engines/sched/sched.cpp, sched.h, explore.hpp, ff_shim.hpp + harness/c15_two_readers.cpp, c25_senders.cpp, c28_logger.cpp, c30_mpmc.cpp, c31_timer.cpp', serves_properties=['C15', 'C16', 'C17', 'C25', 'C28', 'C30', 'C31'],
+         kind_free_text='cooperative scheduler (one futex baton; points at pthread create/join, locks, yields, sleeps on a virtual clock, socket and file system calls of the harness, and before and after every FastFlow atomic) and iterative preemption-bounded depth-first explorer; executions run in process on recycled OS threads while none fails, in forked children from the first failing one on; a tsan variant repeats the schedules under ThreadSanitizer'),
 ]
 
 _load()
+for _k in list(PENDING):
+    if _k in CHECKS:
+        NOT_APPLICABLE[_k] = PENDING[_k]
+CLAIMED = {k: v for k, v in CHECKS.items() if k not in PENDING}
